@@ -10,8 +10,8 @@ ID = "C17"
 THEOREMS = ["C17_combine", "C17_combine_sorted", "C17_filter", "C17_next_use", "C17_buffet_binding",
             "C17_schedule_interleaves", "C17_buffet_run_binding", "C17_buffet_machine",
             "C17_buffet_fills_writebacks", "C17_bounds", "C17_line_granular", "C17_cache_machine",
-            "C17_cache_tie_refuted",
-            "C17_model_meets_spec", "C17_model_meets_spec_no_cache"]
+            "C17_schedule_is_sort", "C17_sort_binds", "C17_cache_refines_min", "C17_cache_tie_refuted",
+            "C17_model_meets_spec", "C17_model_meets_spec_cache", "C17_model_meets_spec_no_cache"]
 COQ_IMPORTS = "From FT Require Import Model.Base Model.Obs Model.C17Traffic Model.C17Check."
 CHECK_VO = ["Model/C17Check.v"]
 CHECKER = "c17_checker"
@@ -32,23 +32,23 @@ TRUSTED = ["Coq 8.16.1 kernel (coqc; coqchk in the thorough tier); vm_compute us
            "row lists), tied to the working tree by the differential correspondence check of this run",
            "harness: harness/check.py, harness/props/c17.py, harness/c17_util.py (writes the CSV traces, builds "
            "Format objects, lists the temporary directory before/after), CPython 3.12",
-           "the cache clause (fills = furthest-next-use with bypass, monotone in capacity) is decided by the "
-           "Coq-defined oracle on the implementation's and the model's outputs of this run, not by a universally "
-           "quantified theorem; every other clause of the oracle is proved for the model (C17_model_meets_spec)"]
+           "the bounds and the monotonicity in capacity of the replacement policy min_run (properties of the "
+           "specification, not of the code) are decided by the Coq-defined oracle on the implementation's and the "
+           "model's outputs of this run, not by a universally quantified theorem; every other clause of the oracle "
+           "is proved for the model outside region 1 (C17_model_meets_spec, C17_cache_refines_min)"]
 ASSUMPTIONS = ["trace files are well formed: rows of the rank's depth, non-negative integers, stamps non-decreasing",
                "bindings have distinct (tensor, rank, type) and bind a rank of their tensor, so objects of "
                "different bindings never collide in objs[tensor][type]",
                "Format.getElem is an input (element bits), property C18 covers Format"]
 EXPLANATION = ("theorems: combine = stable sort; filter = membership filter; next-use scan = next access of the line; "
-               "k-way merge is an interleaving; buffet state machine (in-order drain) = (line, window) first-occurrence "
-               "counts for every window-sorted access sequence, lifted to the per-tensor observation of the model "
-               "(C17_buffet_fills_writebacks); bounds; line granularity; model meets every oracle clause except the "
-               "cache clause (hypothesis of C17_model_meets_spec); cache state machine refines the furthest-next-use-"
-               "with-bypass policy g_min_run for every (stamp, binding)-ordered schedule with correct next-use "
-               "stamps (C17_cache_machine: no AssertionError, fills equal); that the model's merged schedule of a "
-               "case is such a schedule and equals the oracle's is not proved - the cache clause of the oracle "
-               "(min_run = g_min_run at the oracle's records, monotone in capacity) is checked on every case; "
-               "refuted under stamp ties")
+               "k-way merge = stable sort by (padded stamp, binding), an interleaving; buffet state machine (in-order "
+               "drain) = (line, window) first-occurrence counts, lifted to the per-tensor observation "
+               "(C17_buffet_fills_writebacks); cache state machine refines the furthest-next-use-with-bypass policy "
+               "(C17_cache_machine) and, outside region 1, the model's per-tensor read bits equal the oracle's "
+               "min_run on its own merged sequence and the run never raises (C17_cache_refines_min); bounds; line "
+               "granularity; C17_model_meets_spec: outside region 1 the model meets every oracle clause given the two "
+               "clauses about the policy itself (bounds, monotone in capacity), which stay oracle-checked on every "
+               "case; refuted under stamp ties (region 1, known finding)")
 
 
 # ------------------------------------------------------------------ generator
